@@ -192,7 +192,7 @@ def x_aol_keeper_msgServer_DeleteWriter : List String := ["assign ctx := sdk.Unw
 def x_aol_types_DefaultGenesis : List String := ["return _", "kv Owners", "kv Topics", "kv Writers", "kv Records"]
 
 /-- x/aol/types.GenesisState.Validate -/
-def x_aol_types_GenesisState_Validate : List String := ["range gs.Owners", "if err != nil", "assign err := compkey.DecodeFromString(keyStr, GenesisKeySeparator, &key)", "call compkey.DecodeFromString", "return err", "range gs.Topics", "if err != nil", "assign err := compkey.DecodeFromString(keyStr, GenesisKeySeparator, &key)", "call compkey.DecodeFromString", "return err", "if err != nil", "assign err := topic.Validate()", "call topic.Validate", "return err", "range gs.Writers", "if err != nil", "assign err := compkey.DecodeFromString(keyStr, GenesisKeySeparator, &key)", "call compkey.DecodeFromString", "return err", "if err != nil", "assign err := writer.Validate()", "call writer.Validate", "return err", "range gs.Records", "if err != nil", "assign err := compkey.DecodeFromString(keyStr, GenesisKeySeparator, &key)", "call compkey.DecodeFromString", "return err", "if err != nil", "assign err := record.Validate()", "call record.Validate", "return err", "return nil"]
+def x_aol_types_GenesisState_Validate : List String := ["range gs.Owners", "if err != nil", "assign err := compkey.DecodeFromString(keyStr, GenesisKeySeparator, &key)", "call compkey.DecodeFromString", "return err", "if err != nil", "assign err := validateCanonicalKey(keyStr, &key)", "call validateCanonicalKey", "return err", "range gs.Topics", "if err != nil", "assign err := compkey.DecodeFromString(keyStr, GenesisKeySeparator, &key)", "call compkey.DecodeFromString", "return err", "if err != nil", "assign err := validateCanonicalKey(keyStr, &key)", "call validateCanonicalKey", "return err", "if err != nil", "assign err := topic.Validate()", "call topic.Validate", "return err", "range gs.Writers", "if err != nil", "assign err := compkey.DecodeFromString(keyStr, GenesisKeySeparator, &key)", "call compkey.DecodeFromString", "return err", "if err != nil", "assign err := validateCanonicalKey(keyStr, &key)", "call validateCanonicalKey", "return err", "if err != nil", "assign err := writer.Validate()", "call writer.Validate", "return err", "range gs.Records", "if err != nil", "assign err := compkey.DecodeFromString(keyStr, GenesisKeySeparator, &key)", "call compkey.DecodeFromString", "return err", "if err != nil", "assign err := validateCanonicalKey(keyStr, &key)", "call validateCanonicalKey", "return err", "if err != nil", "assign err := record.Validate()", "call record.Validate", "return err", "return nil"]
 
 /-- x/aol/types.MsgAddRecordRequest.GetSignBytes -/
 def x_aol_types_MsgAddRecordRequest_GetSignBytes : List String := ["assign bz := ModuleCdc.MustMarshalJSON(msg)", "call ModuleCdc.MustMarshalJSON", "return _", "call sdk.MustSortJSON"]
@@ -343,6 +343,9 @@ def x_aol_types_WriterCompositeKey_FromStrings : List String := ["if len(strings
 
 /-- x/aol/types.WriterCompositeKey.Strings -/
 def x_aol_types_WriterCompositeKey_Strings : List String := ["return _", "call _.String", "call _.String"]
+
+/-- x/aol/types.validateCanonicalKey -/
+def x_aol_types_validateCanonicalKey : List String := ["if canonical != keyStr", "assign canonical := compkey.EncodeToString(key, GenesisKeySeparator)", "call compkey.EncodeToString", "return _", "call fmt.Errorf", "return nil"]
 
 /-- x/aol/types.validateDescription -/
 def x_aol_types_validateDescription : List String := ["if len(description) > maxDescriptionLength", "call len", "return _", "call errors.Wrapf", "call len", "return nil"]
@@ -504,7 +507,7 @@ def x_did_AppModuleBasic_ValidateGenesis : List String := ["if err != nil", "ass
 def x_did_ExportGenesis : List String := ["assign documentsMap := make(map[string]*types.DIDDocumentWithSeq)", "call make", "range k.ListDIDs(ctx)", "call k.ListDIDs", "assign key := _", "call _.Marshal", "kv DID=did", "assign document := k.GetDIDDocument(ctx, did)", "call k.GetDIDDocument", "assign documentsMap[key] = &document", "return _", "kv Documents=documentsMap"]
 
 /-- x/did.InitGenesis -/
-def x_did_InitGenesis : List String := ["range data.Documents", "if err != nil", "assign err := docKey.Unmarshal(key)", "call docKey.Unmarshal", "call panic", "if doc.Document == nil || doc.Document.Id != docKey.DID", "call k.SetDIDDocument"]
+def x_did_InitGenesis : List String := ["range data.Documents", "call k.SetDIDDocument"]
 
 /-- x/did.NewAppModule -/
 def x_did_NewAppModule : List String := ["return _", "kv AppModuleBasic=NewAppModuleBasic(cdc)", "call NewAppModuleBasic", "kv keeper=keeper"]
